@@ -10,6 +10,10 @@ exploration of the real headers
     CovMat, BandMat for exactly the positive definite members (exact minors)
     for all symmetric matrices and all band widths; SVD, pinv, GSO;
     Hilbert(n<=8) and power-of-two scaled families;
+  * BandMat::invBand of every strictly diagonally dominant band matrix over
+    {-1,0,1} (dim<=5, all band widths; larger dims while the band has <= 10
+    cells) and of structured fillings up to dim 9 band 5 x the requested
+    result band b..b+3 and the default call, against the dense inverse;
   * every binary operator on all shapes in {0..3}^4: exception iff the shapes
     do not conform, never an out-of-bounds access (ASan);
   * copy/assign/move/reset histories of three objects per class: explicit
@@ -29,7 +33,9 @@ ENV = dict(vlib.ASAN_ENV, UBSAN_OPTIONS="print_stacktrace=0:halt_on_error=0:exit
 RULE = ("every unit enumerates its finite family completely: all r x c matrices over the alphabet for every shape "
         "(unary/scalar/inverse, products and sums against a basis + one mixed matrix of every conforming shape, "
         "matrix-vector products), all pairs of vectors, all symmetric matrices x all band widths (storage, algebra, "
-        "Cholesky/solve/inverse), SVD/pinv/GSO on all matrices, conditioning families, every binary operator x all "
+        "Cholesky/solve/inverse), BandMat::invBand on the diagonally dominant band family (every dim x band x filling) x "
+        "{default call, requested result band b, b+1, b+2, b+3} x {empty, pre-sized, differently sized result object} against the "
+        "dense long double inverse, SVD/pinv/GSO on all matrices, conditioning families, every binary operator x all "
         "shape quadruples, BFS over copy/assign/move/reset/write histories to a fixpoint; a state = one enumerated "
         "operand configuration or one canonical (private field) state of the object tuple, a transition = one "
         "library operation executed and compared; non-trivial = every configuration")
@@ -72,6 +78,9 @@ def main():
     ck.finish(RULE, assumptions=[
         "small integer entries: {-1,0,1,2} up to 9 cells%s; symmetric: dim<=3 {-1,0,1,2}, dim 4 %s%s" % (
             ", {-1,0,1} up to 12 cells, {0,1} for 4x4" if th else "", "{-1,0,1,2}" if th else "{-1,0,1}", ", dim 5 {0,1}" if th else ""),
+        "invBand family: off-diagonal band cells over {-1,0,1}, diagonal 2b+1+(i mod 2), complete for dim<=5 (all bands 0..dim-1) and for "
+        "every (dim<=%d, band) with at most %d band cells; other (dim<=%d, band<=5) by three structured fillings over {-2..2}; every positive "
+        "definite member of the all-symmetric family (alg.sym) x every admissible band as well" % ((10, 12, 10) if th else (9, 10, 9)),
         "arbitrary reals are outside the family: conditioning is covered only by Hilbert(n<=8) and power-of-two scalings 2^-10..2^10 of four integer matrices",
         "numeric tolerances: exact equality for + - * trans; 1e-12 for inverses / factor products of integer matrices; kappa*1e-12 for the conditioning families",
         "BandMat::triDiag/eigenVal, stream I/O and jacobian.h are not covered; TransMat*scalar cannot be instantiated (compile error in transmat.h) and is therefore not executed",
